@@ -189,14 +189,17 @@ func Explode(dstDir string, inputShard string) error {
 		}
 	}
 
-	// best effort rename shards.
+	// Rename as many shards as we can, but report failures: the compound shard
+	// is already gone, so a shard we fail to rename is a lost repository.
+	var renameErr error
 	for tmpFn, dstFn := range exploded {
 		if err := os.Rename(tmpFn, dstFn); err != nil {
 			log.Printf("explode: rename failed: %s", err)
+			renameErr = errors.Join(renameErr, fmt.Errorf("zoekt.Explode: rename failed: %w", err))
 		}
 	}
 
-	return nil
+	return renameErr
 }
 
 type shardBuilderFunc func(ib *ShardBuilder)
